@@ -34,6 +34,13 @@ impl ShardManager {
             let (shard, shared_state) =
                 Shard::spawn(id, shard_base_dir.clone(), shard_wal_dir).await;
 
+            #[cfg(sneldb_verif)]
+            crate::verif_hooks::register_shard(
+                id as u32,
+                shard_base_dir.clone(),
+                Arc::clone(&shared_state.segment_ids),
+                Arc::clone(&shared_state.flush_lock),
+            );
             // Start background compactor
             start_background_compactor(
                 id as u32,
